@@ -378,9 +378,10 @@ def make_CylinderSegment(
     k = [k1, k2, j1 + 2 * N, j2 + 2 * N, k3, k4, j3 + N, j4 + N]
 
     if phi2 - phi1 != 360:
+        # the two caps face opposite directions: the start cap is wound the other way round
         i.extend([i5, i5 + N - 1])
-        j.extend([k5, k5 + N - 1])
-        k.extend([j5, j5 + N - 1])
+        j.extend([j5, k5 + N - 1])
+        k.extend([k5, j5 + N - 1])
     i, j, k = (np.hstack(l) for l in (i, j, k))
 
     trace = {"x": x, "y": y, "z": z, "i": i, "j": j, "k": k}
